@@ -1,7 +1,7 @@
 """C46 — Resource counts report what the circuit contains (DESIGN §5.8 C46).
 
 Three exhaustive families:
-  tape   every word (<=3 quick / <=4 thorough) over a 9-letter gate alphabet on 3 wires (template, Adjoint, MCM+Conditional,
+  tape   every word (<=3 quick / <=4 thorough) over a 10-letter gate alphabet on 3 wires (template, Adjoint, MCM+Conditional,
          2-controlled generic Controlled, wire-less GlobalPhase, Barrier ...) x 4 measurement sets: ``tape.specs`` /
          ``resources_from_tape`` vs a plain-Python summary (Counter of names, wire set, longest-path depth by wire levels).
   qnode  every circuit word x every transform pipeline word over {cancel_inverses, merge_rotations, decompose} (markers between
@@ -13,6 +13,7 @@ Three exhaustive families:
          symbolic SpecsResources totals / subs.
 """
 import itertools
+import re
 from collections import Counter
 
 from mc.engine import ok, bad, skip
@@ -21,7 +22,7 @@ from mc.explore import words
 PROPERTY = "C46"
 LEVEL = "exploration"
 TECHNIQUE = "bounded exhaustive enumeration of tapes / (circuit, pipeline, level) triples / resource-object pairs vs. plain-Python summaries"
-LEVEL_TEXT = ("All gate words of length <=3 (thorough 4) over 9 letters x 4 measurement sets for tape.specs; all circuits (<=3, thorough 4 "
+LEVEL_TEXT = ("All gate words of length <=3 (thorough 4) over 10 letters x 4 measurement sets for tape.specs; all circuits (<=3, thorough 4 "
               "letters of 4) x pipelines (<=2, thorough 3 transforms of 3) x every accepted level for qp.specs; all pairs/scalars of the "
               "declared resource-object sets.  Counts, wires, depth, totals, shots, device data and level are compared exactly.")
 LEVEL_NOTE = ("Reference = Counter / set / wire-level longest path written from the documentation.  Gradient- and device-level circuits are "
@@ -33,13 +34,14 @@ PARALLEL = True
 RULE = ("complete product of the declared alphabets up to the length bounds; non-trivial = circuit has >=2 operations (tape/qnode) or both "
         "operands non-zero (arith)")
 ASSUMPTIONS = [
-    "Gate key = op.name, except generic Controlled/ControlledOp with n>1 controls which is reported as f'{n}{name}' (convention stated in the source).",
+    "Gate key = op.name; for generic controlled operators with n>1 controls the spelling f'{n}{name}' used by the source for the legacy "
+    "Controlled classes is accepted as well (undocumented); the total per op.name must be exact.",
     "Depth = longest chain of operations that share a wire (wire-less operations act on all wires of the tape; a Conditional also depends on "
     "its mid-circuit measurements); every operation, including Barrier, counts as one layer.",
 ]
 
 # --------------------------------------------------------------------------------------------- alphabets
-GATES = ["H0", "CX01", "RX2", "AdjS1", "BEL12", "MCM0c2", "C2S", "GP", "BAR02"]
+GATES = ["H0", "CX01", "RX2", "AdjS1", "BEL12", "MCM0c2", "C2S", "C2BEL", "GP", "BAR02"]
 MEAS = ["Z0", "probs_all", "probs01", "sumZX"]
 CIRC = ["H0", "RX0", "CX01", "TOF"]
 TRANS = ["ci", "mr", "dc"]
@@ -66,6 +68,8 @@ def build_ops(qp, letters):
             qp.cond(m, qp.X)(2)
         elif l == "C2S":
             qp.ctrl(qp.S(2), control=[0, 1])
+        elif l == "C2BEL":
+            qp.ctrl(qp.BasicEntanglerLayers([[0.3]], wires=[2]), control=[0, 1])
         elif l == "GP":
             qp.GlobalPhase(0.3)
         elif l == "BAR02":
@@ -106,12 +110,13 @@ def ref_summary(tape):
         for w in o.wires:
             if w not in wires:
                 wires.append(w)
-    counts = Counter()
+    counts = Counter(o.name for o in ops)
+    # the source refines the name of a generic multi-controlled operator to f"{n}{name}" (undocumented, and applied to the
+    # legacy Controlled classes only); both spellings are accepted, the count per op.name must be exact
+    allowed = set(counts)
     for o in ops:
-        key = o.name
-        if type(o).__name__ in ("Controlled", "ControlledOp") and len(o.control_wires) > 1:
-            key = f"{len(o.control_wires)}{key}"
-        counts[key] += 1
+        if o.name.startswith("C(") and len(getattr(o, "control_wires", ())) > 1:
+            allowed.add(f"{len(o.control_wires)}{o.name}")
     level = {w: 0 for w in wires}
     mcm_level = {}
     depth = 0
@@ -127,7 +132,7 @@ def ref_summary(tape):
         if type(o).__name__ in ("MidMeasure", "MidMeasureMP", "PauliMeasure"):
             mcm_level[id(o)] = lv
         depth = max(depth, lv)
-    return {"counts": dict(counts), "num_wires": len(wires), "depth": depth, "n_ops": len(ops), "n_meas": len(tape.measurements)}
+    return {"counts": dict(counts), "allowed": allowed, "num_wires": len(wires), "depth": depth, "n_ops": len(ops), "n_meas": len(tape.measurements)}
 
 
 DOCUMENTED_MEAS = {"Z0": {"expval(PauliZ)": 1}, "probs_all": {"probs(all wires)": 1},
@@ -135,9 +140,15 @@ DOCUMENTED_MEAS = {"Z0": {"expval(PauliZ)": 1}, "probs_all": {"probs(all wires)"
                    "XZ": None, "probs01": None}
 
 
-def compare_resources(r, ref, what, meas_name=None, depth_expected=True, n_tape_wires=None):
+def compare_resources(r, ref, what, meas_name=None, depth_expected=True):
     """SpecsResources `r` vs reference summary; returns a bad(...) or None."""
-    if dict(r.counts) != ref["counts"]:
+    grouped = Counter()
+    for k, v in r.counts.items():
+        if k not in ref["allowed"]:
+            return bad(f"{what}:counts:unknown-gate-key", dict(r.counts), ref["counts"])
+        m = re.match(r"^\d+(C\(.*)$", k)
+        grouped[m.group(1) if m else k] += v
+    if dict(grouped) != ref["counts"]:
         return bad(f"{what}:counts", dict(r.counts), ref["counts"])
     if r.total_quantum_operations != ref["n_ops"]:
         return bad(f"{what}:total_quantum_operations", r.total_quantum_operations, ref["n_ops"])
